@@ -41,9 +41,35 @@ struct Storage* tiff_init(void);
 #define FSZ (16 + NFRAMES * (8 + 16 * 20 + 8 + PXB + 8 + ((DESC + 1 + 7) / 8) * 8 + 16) + 64)
 
 /* ---- C++ runtime / libc stubs used by the translated code ---- */
-void* _Znwm(unsigned long n) { VASSUME(n <= 512); void* p = malloc(512); VASSUME(p != 0); return p; }
-void _ZdlPv(void* p) { free(p); }
-void _ZdlPvm(void* p, unsigned long n) { free(p); }
+/* `new Tiff` returns a TYPED static object that mirrors the class layout (checked against the
+ * size the translated code asks for): the translated code reaches members through
+ * `*(T*)((char*)self + offset)`; on a typed object with a member of type T at that offset CBMC
+ * resolves this to the member and constant-propagates the stored values (file offsets, string
+ * section sizes); on a malloc'ed byte array it does not, and every later file_write has a symbolic
+ * offset (no verdict in 25 min). */
+struct str_mirror { char* p; size_t len; union { char buf[16]; size_t cap; } u; };
+struct tiff_mirror {
+    struct Storage base;
+    struct str_mirror filename, metadata;
+    struct PixelScale pixel_scale;
+    struct file file; int pad_;
+    uint64_t last_offset, last_ifd_next_offset;
+    size_t frame_count;
+    int64_t ss_offset, ss_capacity, ss_size;
+    char* ss_data;
+};
+static struct tiff_mirror the_tiff;
+static int tiff_live;
+void*
+_Znwm(unsigned long n)
+{
+    VASSERT(n == sizeof(struct tiff_mirror), "layout of class Tiff changed: update struct tiff_mirror in the harness");
+    VASSERT(!tiff_live, "one device per harness run");
+    tiff_live = 1;
+    return &the_tiff;
+}
+void _ZdlPv(void* p) { if (p == (void*)&the_tiff) tiff_live = 0; else free(p); }
+void _ZdlPvm(void* p, unsigned long n) { _ZdlPv(p); }
 void* __cxa_begin_catch(void* p) { VASSUME(0); return 0; }
 void __cxa_end_catch(void) {}
 void _ZSt9terminatev(void) { VASSUME(0); }
@@ -63,7 +89,6 @@ realloc(void* p, size_t n)
 #endif
 
 /* ---- file model ---- */
-static uint8_t img[FSZ];
 static uint64_t flen;
 static int is_open, n_close, n_create, n_write, bad_ops;
 static int fail_create, fail_write_at = -1, fail_write_from = -1, write_errors;
@@ -86,6 +111,12 @@ file_close(struct file* f)
     is_open = 0;
     ++n_close;
 }
+/* Streaming reader: every write is classified by its position in the expected sequence
+ *   header | per frame: directory, strip, strings | terminator
+ * and the scalars an independent TIFF reader would look at are extracted with typed loads at the
+ * moment of the write (a byte image of the file re-read at the end cost > 12 GB for one frame). */
+union frame;
+static void on_write(uint64_t off, const uint8_t* beg, size_t n);
 int
 file_write(const struct file* f, uint64_t off, const uint8_t* beg, const uint8_t* end)
 {
@@ -93,9 +124,9 @@ file_write(const struct file* f, uint64_t off, const uint8_t* beg, const uint8_t
     if (!is_open || f->fid != 5) { ++bad_ops; return 0; } /* write on a descriptor the device does not own (any more) */
     if (idx == fail_write_at || (fail_write_from >= 0 && idx >= fail_write_from)) { ++write_errors; return 0; }
     size_t n = (size_t)(end - beg);
-    VASSERT(off + n <= FSZ, "harness bound: file image too small");
-    for (size_t k = 0; k < FSZ; ++k)
-        if (k < n) img[off + k] = beg[k];
+#if MODE == 15
+    on_write(off, beg, n);
+#endif
     if (off + n > flen) flen = off + n;
     return 1;
 }
@@ -131,10 +162,6 @@ drv_close(struct Driver* d, struct Device* in)
 static struct Driver drv = { .close = drv_close };
 struct Driver* device_manager_get_driver(const struct DeviceManager* self, const struct DeviceIdentifier* identifier) { return &drv; }
 
-static uint64_t rd64(uint64_t o) { uint64_t v = 0; for (int k = 7; k >= 0; --k) v = (v << 8) | img[o + k]; return v; }
-static uint32_t rd32(uint64_t o) { return (uint32_t)img[o] | ((uint32_t)img[o + 1] << 8) | ((uint32_t)img[o + 2] << 16) | ((uint32_t)img[o + 3] << 24); }
-static uint16_t rd16(uint64_t o) { return (uint16_t)(img[o] | (img[o + 1] << 8)); }
-
 union frame { struct VideoFrame v; uint8_t raw[sizeof(struct VideoFrame) + PXB]; };
 static union frame F[NFRAMES];
 static uint8_t packet[NFRAMES * sizeof(union frame)] __attribute__((aligned(8)));
@@ -143,6 +170,74 @@ static size_t
 bpt(enum SampleType t)
 {
     return (t == SampleType_u8 || t == SampleType_i8) ? 1 : (t == SampleType_f32 ? 4 : 2);
+}
+
+/* ---- streaming reader state ---- */
+static int stage;            /* 0 header expected; then 1+3*i directory, 2+3*i strip, 3+3*i strings; last: terminator */
+static int rd_errors;        /* any deviation from a valid BigTIFF with the frames' content */
+static uint64_t prev_end = 16, cur_ifd, link_pos, link_val, strip_off, strip_len, d_off, d_cnt;
+static int terminated, frames_read;
+#define BAD(c) do { if (!(c)) ++rd_errors; } while (0)
+static uint16_t ld16(const uint8_t* p) { return *(const uint16_t*)p; }
+static uint32_t ld32(const uint8_t* p) { return *(const uint32_t*)p; }
+static uint64_t ld64(const uint8_t* p) { return *(const uint64_t*)p; }
+static void
+on_write(uint64_t off, const uint8_t* beg, size_t n)
+{
+    if (stage == 0) {
+        /* header: II 2B 00 08 00 00, first directory at 16 */
+        BAD(off == 0 && n == 16);
+        BAD(beg[0] == 'I' && beg[1] == 'I' && ld16(beg + 2) == 0x2B && ld16(beg + 4) == 8 && ld16(beg + 6) == 0 && ld64(beg + 8) == 16);
+        stage = 1;
+        return;
+    }
+    int i = (stage - 1) / 3, part = (stage - 1) % 3;
+    if (i < NFRAMES && part == 0) {
+        /* directory of frame i: where the previous directory's link (or the header) points, not
+         * overlapping anything written before */
+        BAD(n == 8 + 16 * 20 + 8 && (off & 7) == 0 && off >= prev_end);
+        BAD(i == 0 ? off == 16 : off == link_val);
+        BAD(ld64(beg) == 16);
+        int seen = 0;
+        for (int k = 0; k < 16; ++k) {
+            const uint8_t* t = beg + 8 + 20 * k;
+            uint16_t tag = ld16(t);
+            if (tag == 256) { BAD(ld32(t + 12) == F[i].v.shape.dims.width); seen |= 1; }
+            if (tag == 257) { BAD(ld32(t + 12) == F[i].v.shape.dims.height); seen |= 2; }
+            if (tag == 258) { BAD(ld16(t + 12) == 8 * bpt(F[i].v.shape.type)); seen |= 4; }
+            if (tag == 339) {
+                enum SampleType ty = F[i].v.shape.type;
+                uint16_t want = (ty == SampleType_i8 || ty == SampleType_i16) ? 2 : (ty == SampleType_f32 ? 3 : 1);
+                BAD(ld16(t + 12) == want); seen |= 8;
+            }
+            if (tag == 273) { strip_off = ld64(t + 12); seen |= 16; }
+            if (tag == 279) { strip_len = ld64(t + 12); seen |= 32; }
+            if (tag == 270) { d_cnt = ld64(t + 4); d_off = ld64(t + 12); seen |= 64; }
+        }
+        BAD(seen == 127);
+        cur_ifd = off;
+        link_pos = off + 8 + 16 * 20;
+        link_val = ld64(beg + 8 + 16 * 20);
+        prev_end = off + n;
+        BAD(strip_len == PXB && strip_off >= prev_end);
+        BAD(d_cnt == DESC + 1 && d_off >= strip_off + strip_len);
+        BAD(link_val >= d_off + d_cnt && (link_val & 7) == 0); /* provisional link: past this frame's data */
+    } else if (i < NFRAMES && part == 1) {
+        /* strip: exactly where the directory says, the frame's pixel bytes */
+        BAD(off == strip_off && n == strip_len);
+        for (int j = 0; j < PXB; ++j) BAD(beg[j] == F[i].v.data[j]);
+        prev_end = off + n;
+    } else if (i < NFRAMES && part == 2) {
+        /* string section: holds the description where the directory says, NUL terminated */
+        BAD(off == d_off && n >= d_cnt && beg[d_cnt - 1] == 0);
+        prev_end = off + n;
+        ++frames_read;
+    } else {
+        /* terminator: a zero written over the last directory's link */
+        BAD(off == link_pos && n == 8 && ld64(beg) == 0);
+        terminated = 1;
+    }
+    ++stage;
 }
 
 int
@@ -181,7 +276,8 @@ main(void)
         for (int k = 0; k < PXB; ++k) F[i].v.data[k] = ND(uint8_t);
         memcpy(packet + (size_t)i * sizeof(union frame), &F[i], sizeof F[i]);
     }
-#if GROUPING == 1
+#ifdef EXP_NO_APPEND
+#elif GROUPING == 1
     /* one frame per append */
     for (int i = 0; i < NFRAMES; ++i)
         VASSERT(storage_append(dev, (struct VideoFrame*)(packet + (size_t)i * sizeof(union frame)), (struct VideoFrame*)(packet + (size_t)(i + 1) * sizeof(union frame))) == Device_Ok, "append failed");
@@ -191,43 +287,14 @@ main(void)
 #endif
     VASSERT(storage_stop(dev) == Device_Ok, "stop failed");
     VASSERT(bad_ops == 0 && n_create == 1 && n_close == 1 && !is_open, "C16: descriptor not created/closed exactly once");
-    /* ---- independent reader ---- */
-    VASSERT(img[0] == 'I' && img[1] == 'I' && rd16(2) == 0x2B && rd16(4) == 8 && rd16(6) == 0, "C15: not a little-endian BigTIFF header");
-    uint64_t ifd = rd64(8);
-    VASSERT(ifd == 16, "C15: first directory not right after the header");
-    uint64_t prev_end = 16;
-    for (int i = 0; i < NFRAMES; ++i) {
-        VASSERT(ifd >= prev_end && (ifd & 7) == 0 && ifd + 8 + 16 * 20 + 8 <= flen, "C15: directory outside the file / overlapping the previous frame's data");
-        VASSERT(rd64(ifd) == 16, "C15: directory does not have 16 entries");
-        uint64_t next = rd64(ifd + 8 + 16 * 20);
-        uint64_t dir_end = ifd + 8 + 16 * 20 + 8;
-        int seen = 0;
-        uint64_t strip_off = 0, strip_len = 0, d_off = 0, d_cnt = 0;
-        for (int k = 0; k < 16; ++k) {
-            uint64_t t = ifd + 8 + 20 * (uint64_t)k;
-            uint16_t tag = rd16(t);
-            if (tag == 256) { VASSERT(rd32(t + 12) == F[i].v.shape.dims.width, "C15: ImageWidth is not the frame's width"); seen |= 1; }
-            if (tag == 257) { VASSERT(rd32(t + 12) == F[i].v.shape.dims.height, "C15: ImageLength is not the frame's height"); seen |= 2; }
-            if (tag == 258) { VASSERT(rd16(t + 12) == 8 * bpt(F[i].v.shape.type), "C15: BitsPerSample is not 8 x bytes of the sample type"); seen |= 4; }
-            if (tag == 339) {
-                enum SampleType ty = F[i].v.shape.type;
-                uint16_t want = (ty == SampleType_i8 || ty == SampleType_i16) ? 2 : (ty == SampleType_f32 ? 3 : 1);
-                VASSERT(rd16(t + 12) == want, "C15: SampleFormat does not match the sample type"); seen |= 8;
-            }
-            if (tag == 273) { strip_off = rd64(t + 12); seen |= 16; }
-            if (tag == 279) { strip_len = rd64(t + 12); seen |= 32; }
-            if (tag == 270) { d_cnt = rd64(t + 4); d_off = rd64(t + 12); seen |= 64; }
-        }
-        VASSERT(seen == 127, "C15: a required tag is missing");
-        VASSERT(strip_len == PXB && strip_off >= dir_end && strip_off + strip_len <= flen, "C15: strip outside the file or overlapping the directory");
-        for (int j = 0; j < PXB; ++j) VASSERT(img[strip_off + j] == F[i].v.data[j], "C15: strip bytes are not the frame's pixel bytes");
-        VASSERT(d_cnt == DESC + 1 && d_off >= strip_off + strip_len && d_off + d_cnt <= flen && img[d_off + d_cnt - 1] == 0, "C15: description outside the file / overlapping the strip / not terminated");
+    /* ---- verdict of the streaming reader ---- */
+    VASSERT(rd_errors == 0, "C15: the file is not a valid little-endian BigTIFF carrying the frames (header, directory position/entries, width/height/bits/sample format, strip position/bytes, description position, links)");
+    VASSERT(frames_read == NFRAMES && stage == 2 + 3 * NFRAMES, "C15: number of directories written differs from the number of frames appended");
+    VASSERT(terminated, "C15: directory chain does not end in a zero link");
+    VASSERT(prev_end <= flen && link_val <= flen + 8, "C15: structure outside the file");
+    for (int i = 0; i < NFRAMES; ++i)
         VASSERT(va_rec[i][0] == F[i].v.frame_id && va_rec[i][1] == F[i].v.hardware_frame_id && va_rec[i][2] == F[i].v.timestamps.acq_thread && va_rec[i][3] == F[i].v.timestamps.hardware,
                 "C15: description does not carry the frame's ids and timestamps");
-        prev_end = d_off + d_cnt;
-        if (i + 1 < NFRAMES) { VASSERT(next >= prev_end && next + 8 <= flen, "C15: next-directory link outside the file or into this frame's data"); ifd = next; }
-        else VASSERT(next == 0, "C15: directory chain does not end in a zero link");
-    }
     VASSERT(va_calls == NFRAMES, "C15: number of descriptions differs from the number of frames");
     storage_close(dev);
     VASSERT(bad_ops == 0 && n_close == 1 && destroyed == 1, "C16: descriptor misuse at close");
